@@ -608,6 +608,7 @@ class RemoteStreamFlowPath(
                 path,
                 "&&",
                 "sha1sum",
+                "<",
                 path,
                 "|",
                 "awk",
